@@ -28,7 +28,8 @@ class C12(Prop):
         "NV.C12.countCond_spec",
         "NV.C12.pollBlocks_spec",
         "NV.C12.growBy_pos",
-        "NV.C12.cSpaceRule_discard",
+        "NV.C12.cSpaceRule_spec",
+        "NV.C12.arrivals_held",
         "NV.C12.arrivals_append_partial",
         "NV.C12.arrivals_discard",
         "NV.C12.userIO_ovf",
@@ -139,8 +140,9 @@ class C12(Prop):
                   "efun, exec() moving a connection to another object, uncaught LPC errors that abort an iteration and restart the loop) for all tables, cursors, queue depths "
                   "and scripts; TOP THEOREM model_satisfies_spec: judgeEv (events sc cs) = [] - the specification oracle (all five "
                   "clause oracles: twice / outside / crash / malformed, efun, fifo, starved / idleWait, overtaken) accepts the "
-                  "trace of the model for every history with plain bytes in which get_user_data never discards a text buffer "
-                  "(overflow = false; otherwise the open finding C13-typeahead-discard applies: arrivals_append_Full_false) and "
+                  "trace of the model for every history with plain bytes in which no read finds the pending text short of room "
+                  "(overflow = false; beyond that: arrivals_held - the read is held back, nothing is lost - and "
+                  "arrivals_discard / arrivals_append_Full_false for an unfinished over-long line) and "
                   "every script oracle; the model is tied to the source by regenerated "
                   "expressions, flag bits and AST statement orders (bridging lemmas are obligations) and by stepping the REAL "
                   "backend() loop (guarded cycle hook; aborted iterations seen through the second poll) with loopback TCP clients "
@@ -158,9 +160,10 @@ class C12(Prop):
             "backend() is compared line by line with the model (commands served, iflags and slot of every user after each "
             "cycle); a case is non-trivial when at least one buffered command was executed; distinct = distinct canonical "
             "implementation trace")
-    not_covered = ["runs in which get_user_data discards a text buffer (open finding C12-typeahead-discard = C13-typeahead-discard): "
-                   "the model mirrors the discard and the driver is compared on it, but the trace theorems for fifo / starved / "
-                   "idleWait / overtaken carry the side condition overflow = false",
+    not_covered = ["runs in which the pending text of a user is short of room (>= 1664 bytes) at a read: get_user_data then holds the "
+                   "read back (complete commands buffered; repaired by 57d7cb1, nothing typed ahead is lost any more) or discards "
+                   "an unfinished over-long line; the model mirrors both and the driver is compared on them, but the trace "
+                   "theorems for fifo / starved / idleWait / overtaken carry the side condition overflow = false",
                    "harness discipline (also in the model): at most MAX_TEXT/16 unread bytes per user and at most MAX_EVENTS-2 "
                    "ready descriptors per poll round; partial reads, a CR|LF split across reads, the 'no room' exit of "
                    "reframe_single_char_input and the truncation of an over-long partial line are not modelled",
@@ -268,15 +271,19 @@ class C12(Prop):
         out.append("/-- C (new_interactive): `int new_max_users = max_users + %s;` -/\ndef growBy : Nat := %s" % (m6[0], m6[0]))
         # (i) the space rule of get_user_data (PORT_TELNET): divisors of the two tests and of the space after a discard
         m8 = re.search(r"text_space = \(MAX_TEXT - \(int\)ip->text_end - 1\) / (\d+);\s*if \(text_space < MAX_TEXT / (\d+)\)\s*\{"
-                       r"\s*size_t len = ip->text_end - ip->text_start;\s*memmove \(ip->text, ip->text \+ ip->text_start, len \+ 1\);\s*"
+                       r"\s*size_t len = ip->text_end - ip->text_start;\s*"
+                       r"if \(\(MAX_TEXT - len - 1\) / (\d+) < MAX_TEXT / (\d+) && !\(evt && evt->buffer\) && cmd_in_buf \(ip\)\)\s*\{\s*"
+                       r"ip->iflags \|= CMD_IN_BUF;\s*return;\s*\}\s*"
+                       r"memmove \(ip->text, ip->text \+ ip->text_start, len \+ 1\);\s*"
                        r"ip->text_start = 0;\s*ip->text_end = len;\s*text_space = \(MAX_TEXT - ip->text_end - 1\) / (\d+);\s*"
-                       r"if \(text_space < MAX_TEXT / (\d+)\)\s*\{[^{}]*ip->text_start = 0;\s*ip->text_end = 0;\s*text_space = MAX_TEXT / (\d+);",
+                       r"if \(text_space < MAX_TEXT / (\d+)\)\s*\{\s*ip->text_start = 0;\s*ip->text_end = 0;\s*text_space = MAX_TEXT / (\d+);",
                        comm, re.S)
-        if not m8 or m8.group(1) != m8.group(3) or m8.group(2) != m8.group(4):
-            raise X.TieBroken("guard:space rule", "get_user_data's PORT_TELNET space rule (space / compaction / discard) left its shape")
+        if not m8 or len({m8.group(1), m8.group(3), m8.group(5)}) != 1 or len({m8.group(2), m8.group(4), m8.group(6)}) != 1:
+            raise X.TieBroken("guard:space rule", "get_user_data's PORT_TELNET room rule (space / hold-back while a command is "
+                              "buffered / compaction / discard of an unfinished line) left its shape")
         out.append("/-- C (get_user_data): `text_space = (MAX_TEXT - text_end - 1) / %s` -/\ndef spaceDiv : Nat := %s" % (m8.group(1), m8.group(1)))
         out.append("/-- C (get_user_data): `if (text_space < MAX_TEXT / %s)` (both tests) -/\ndef compactDiv : Nat := %s" % (m8.group(2), m8.group(2)))
-        out.append("/-- C (get_user_data): `text_space = MAX_TEXT / %s` after the discard -/\ndef discardSpaceDiv : Nat := %s" % (m8.group(5), m8.group(5)))
+        out.append("/-- C (get_user_data): `text_space = MAX_TEXT / %s` after the discard -/\ndef discardSpaceDiv : Nat := %s" % (m8.group(7), m8.group(7)))
         # (j) events per poll round
         epo = nocomment(open(os.path.join(E.REPO, "lib/async/async_runtime_epoll.c"), errors="replace").read())
         m9 = re.findall(r"#define MAX_EVENTS (\d+)", epo)
